@@ -5,6 +5,7 @@ import (
 	"sort"
 	"strings"
 	"unicode"
+	"unicode/utf8"
 
 	"github.com/shopspring/decimal"
 )
@@ -157,6 +158,9 @@ func c13Text(r *RNG, o c13TextOpts, tags map[string]bool) string {
 		parts = append(parts, w)
 	}
 	s := strings.Join(parts, " ")
+	if c13Long != nil {
+		s = c13Long.visit(s, o, tags)
+	}
 	if o.NoSemi {
 		s = strings.NewReplacer(";", ":", "\"", "'", "\n", " ", "\r", " ").Replace(s)
 	}
@@ -1376,4 +1380,323 @@ func c13GenIB(r *RNG) *c13Stmt {
 	st.File = []byte(c13Csv(r, recs, ',', c13CsvOptsFor(r, c13Dialects[st.Imp], tags)))
 	st.Tags = c13Tags(tags)
 	return st
+}
+
+// ---------------------------------------------------------------- long fields, long physical lines (stream long)
+//
+// Nothing in the property bounds the length of a free-text field or of a line of the statement: a payment reference with an
+// embedded document, a remittance text of some hundred KiB, a quoted field that runs over thousands of lines are rows like any
+// other, and every row before, at and after them yields its transaction. The other streams write fields of a few words (lines
+// below 1 KiB). Here one to three free-text fields of a statement - in the first, a middle or the last rows, for every importer
+// and every free-text column, ch.viac: white space between two values - are 1 KiB to 1 MiB long, with lengths just around
+// the sizes at which readers, scanners and buffers change behaviour (4096, 65536, 1 MiB and the powers of two between, +-2),
+// measured on the FIELD or on the PHYSICAL LINE that holds it, as plain words, one unbroken token, text with embedded line
+// ends (a long logical field on short physical lines, or on one long line among short ones), Unicode / ISO 8859-1 text (a
+// multi-byte character across the boundary), or text full of quotes and separators (every quote doubled in the file).
+// The statement's rows, amounts and dates, and so the generator's reading of it, are those of the same draws without the long
+// text: the filler comes from a generator of its own, so the draws of the statement are not disturbed.
+
+type c13LongSpec struct {
+	Kind  string `json:"kind"`  // plain, solid, newlines, newline-long, unicode, quotes
+	Len   int    `json:"bytes"` // length of the filler in bytes (UTF-8; ISO 8859-1 statements: characters)
+	Place string `json:"place"` // after, before, alone: where the filler stands relative to the field's own words
+	Call  int    `json:"free_text_field"`
+}
+
+type c13LongPlan struct {
+	seed  uint64
+	calls int
+	at    map[int]*c13LongSpec
+}
+
+// c13Long != nil: c13Text counts its calls and extends the fields named in the plan (the stream long sets it while it builds a
+// statement, which happens sequentially).
+var c13Long *c13LongPlan
+
+func (p *c13LongPlan) visit(s string, o c13TextOpts, tags map[string]bool) string {
+	k := p.calls
+	p.calls++
+	sp, ok := p.at[k]
+	if !ok {
+		return s
+	}
+	fill := c13LongFill(NewRNG(p.seed, "long-fill", k), sp.Kind, sp.Len, o)
+	tags["long-field"] = true
+	if strings.ContainsAny(fill, "\n\r") {
+		tags["newline"] = true
+	}
+	if strings.Contains(fill, "\"") {
+		tags["quote"] = true
+	}
+	switch sp.Place {
+	case "after":
+		return s + " " + fill
+	case "before":
+		return fill + " " + s
+	}
+	return fill
+}
+
+// c13LongFill: n bytes of text of the given kind (cut at a character boundary; never ending in a blank).
+func c13LongFill(r *RNG, kind string, n int, o c13TextOpts) string {
+	var b strings.Builder
+	b.Grow(n + 64)
+	uni := c13UniWords
+	if o.Latin1 {
+		uni = c13LatinWords
+	}
+	if !o.Newline && (kind == "newlines" || kind == "newline-long") {
+		kind = "plain"
+	}
+	nextBreak := r.Range(20, 200)
+	if kind == "newline-long" {
+		// a few short lines, then one long one
+		for i := r.Range(1, 4); i > 0; i-- {
+			b.WriteString(Pick(r, c13PlainWords))
+			b.WriteString(Pick(r, []string{"\n", "\n", "\r\n"}))
+		}
+	}
+	for b.Len() < n {
+		switch kind {
+		case "solid":
+			b.WriteString(Pick(r, []string{"REF", "0123456789", "ABCDEF", "x", "4711", "ZZ9", "k"}))
+			continue
+		case "unicode":
+			if r.Chance(1, 2) {
+				b.WriteString(Pick(r, uni))
+			} else {
+				b.WriteString(Pick(r, c13PlainWords))
+			}
+		case "quotes":
+			if r.Chance(1, 3) {
+				b.WriteString(Pick(r, []string{"\"", "\"\"", "a;b", ";", "x,y", ",", "say \"hi\"", "'", "=\"f\"", "\\\""}))
+			} else {
+				b.WriteString(Pick(r, c13PlainWords))
+			}
+		case "newlines":
+			b.WriteString(Pick(r, c13PlainWords))
+			if b.Len() >= nextBreak {
+				b.WriteString(Pick(r, []string{"\n", "\n", "\r\n", "\n\n"}))
+				nextBreak = b.Len() + r.Range(1, 400)
+				continue
+			}
+		default:
+			b.WriteString(Pick(r, c13PlainWords))
+		}
+		b.WriteString(" ")
+	}
+	s := b.String()
+	if len(s) > n {
+		s = s[:n]
+		for len(s) > 0 {
+			if ch, size := utf8.DecodeLastRuneInString(s); ch != utf8.RuneError || size != 1 {
+				break
+			}
+			s = s[:len(s)-1]
+		}
+	}
+	if k := len(s); k > 0 && (s[k-1] == ' ' || s[k-1] == '\n' || s[k-1] == '\r') {
+		s = s[:k-1] + "x"
+	}
+	return s
+}
+
+// the sizes at which readers, scanners and buffers change behaviour
+var c13LongEdges = []int{4096, 65536, 1 << 20}
+var c13LongOtherEdges = []int{1024, 2048, 8192, 16384, 32768, 131072, 262144, 524288}
+
+type c13LongCase struct {
+	Target  string        `json:"length_measured_on"` // field | line
+	Edge    int           `json:"edge,omitempty"`
+	Want    int           `json:"wanted_bytes"`
+	Where   string        `json:"where"` // first, middle, last, any
+	Fields  []c13LongSpec `json:"long_fields"`
+	Texts   int           `json:"free_text_fields"`
+	MaxLine int           `json:"longest_physical_line"`
+	Exact   bool          `json:"line_length_exact"`
+}
+
+func c13LogUniform(r *RNG, lo, hi int) int {
+	// uniform in the exponent: as many sizes between 1 and 2 KiB as between 512 KiB and 1 MiB
+	steps := 0
+	for x := lo; x < hi; x *= 2 {
+		steps++
+	}
+	v := lo << r.Intn(steps)
+	v += r.Intn(v)
+	if v > hi {
+		v = hi
+	}
+	return v
+}
+
+func c13LongestLine(file []byte) int {
+	m, start := 0, 0
+	for i, ch := range file {
+		if ch == '\n' {
+			if i+1-start > m {
+				m = i + 1 - start
+			}
+			start = i + 1
+		}
+	}
+	if len(file)-start > m {
+		m = len(file) - start
+	}
+	return m
+}
+
+// c13GenLong: the statement of the draws of r for importer imp, with long free-text fields as class cls (0..11) says; huge =
+// false turns the MiB sizes into sizes around 64 KiB (quick tier: most indices).
+func c13GenLong(mk func() *RNG, imp string, cls int, huge bool) (*c13Stmt, *c13LongCase) {
+	pr := mk()
+	plan := NewRNG(pr.Next(), "long-plan", cls)
+	fillSeed := pr.Next()
+	rows := plan.Range(1, 40)
+	if plan.Chance(1, 4) {
+		rows = plan.Range(1, 3)
+	}
+	lc := &c13LongCase{Target: "field"}
+	delta := plan.Range(-2, 2)
+	switch cls {
+	case 0, 10:
+		lc.Target, lc.Edge = "line", 65536
+	case 1:
+		lc.Edge = 65536
+	case 2:
+		lc.Target, lc.Edge = "line", 4096
+	case 3:
+		lc.Edge = 1 << 20
+	case 4:
+		lc.Want = c13LogUniform(plan, 1024, 1<<20)
+	case 5:
+		lc.Target, lc.Want = "line", 65536+plan.Range(3, 6000)
+	case 6:
+		lc.Edge = 4096
+	case 7:
+		lc.Target, lc.Edge = "line", 1<<20
+	case 8:
+		lc.Target, lc.Edge = Pick(plan, []string{"line", "field"}), Pick(plan, c13LongOtherEdges)
+	case 9:
+		lc.Want = plan.Range(65536, 200000)
+	default:
+		lc.Want = c13LogUniform(plan, 1024, 65536)
+	}
+	if !huge && (lc.Edge > 300000 || lc.Want > 300000) {
+		lc.Edge, lc.Want = 65536, 0
+	}
+	if lc.Edge > 0 {
+		lc.Want = lc.Edge + delta
+	}
+	kinds := []string{"plain", "plain", "solid", "unicode", "quotes", "newlines", "newline-long"}
+	if lc.Target == "line" {
+		kinds = []string{"plain", "plain", "solid", "unicode", "quotes", "newline-long"}
+	}
+	kind := Pick(plan, kinds)
+	if cls == 10 {
+		kind = "newline-long"
+	}
+	lc.Where = Pick(plan, []string{"first", "middle", "last", "last", "any"})
+	place := Pick(plan, []string{"after", "after", "before", "alone"})
+	extra := 0
+	if plan.Chance(1, 4) {
+		extra = plan.Range(1, 2)
+	}
+	gen := func(at map[int]*c13LongSpec) (*c13Stmt, int) {
+		c13ForceRows = rows
+		c13Long = &c13LongPlan{seed: fillSeed, at: at}
+		defer func() { c13ForceRows, c13Long = 0, nil }()
+		st := c13Gen(mk(), imp)
+		return st, c13Long.calls
+	}
+	st, texts := gen(nil)
+	if texts == 0 && !c13Dialects[imp].JSON {
+		rows = 40 // ch.swissquote: only trades and dividends carry free text
+		st, texts = gen(nil)
+	}
+	lc.Texts = texts
+	if c13Dialects[imp].JSON {
+		// ch.viac: no free text; white space between two values of the array (or before / after the document)
+		ws := c13LongFill(plan, Pick(plan, []string{"plain", "newlines"}), lc.Want, c13TextOpts{Newline: true})
+		ws = strings.Map(func(ch rune) rune {
+			switch {
+			case ch == '\n' || ch == '\r' || ch == ' ':
+				return ch
+			case ch == 'x':
+				return '\t'
+			}
+			return ' '
+		}, ws)
+		text := string(st.File)
+		var cuts []int
+		for i := 0; i+1 < len(text); i++ {
+			if text[i] == ',' && text[i+1] == '{' {
+				cuts = append(cuts, i+1)
+			}
+		}
+		cuts = append(cuts, 0, len(text))
+		at := cuts[plan.Intn(len(cuts))]
+		switch {
+		case lc.Where == "first":
+			at = cuts[0]
+		case lc.Where == "last" && len(cuts) > 2:
+			at = cuts[len(cuts)-3]
+		}
+		st.File = []byte(text[:at] + ws + text[at:])
+		st.Tags = append(st.Tags, "long-field")
+		sort.Strings(st.Tags)
+		lc.Target = "field"
+		lc.Fields = []c13LongSpec{{Kind: "white space", Len: len(ws), Place: fmt.Sprintf("at byte %d", at)}}
+		lc.MaxLine = c13LongestLine(st.File)
+		return st, lc
+	}
+	if texts == 0 {
+		lc.MaxLine = c13LongestLine(st.File)
+		return st, lc
+	}
+	pickCall := func(where string) int {
+		span := min(3, texts)
+		switch where {
+		case "first":
+			return plan.Intn(span)
+		case "last":
+			return texts - 1 - plan.Intn(span)
+		case "middle":
+			return texts/2 + plan.Intn(span) - span/2
+		}
+		return plan.Intn(texts)
+	}
+	at := map[int]*c13LongSpec{}
+	main := &c13LongSpec{Kind: kind, Len: lc.Want, Place: place, Call: min(max(pickCall(lc.Where), 0), texts-1)}
+	at[main.Call] = main
+	for ; extra > 0; extra-- {
+		k := pickCall("any")
+		if _, ok := at[k]; !ok {
+			at[k] = &c13LongSpec{Kind: Pick(plan, kinds), Len: c13LogUniform(plan, 1024, min(32768, lc.Want/2+1024)), Place: "after", Call: k}
+		}
+	}
+	// the wanted length is that of the longest physical line: adjust the filler until it is (the rest of the line does not
+	// change with the filler's length; quotes are doubled and characters may take several bytes, hence more than one round)
+	for round := 0; ; round++ {
+		var calls int
+		st, calls = gen(at)
+		lc.MaxLine = c13LongestLine(st.File)
+		if calls != texts {
+			panic("c13GenLong: the long text changed the draws of the statement")
+		}
+		if lc.Target != "line" || lc.MaxLine == lc.Want || round == 5 {
+			break
+		}
+		main.Len = max(16, main.Len+lc.Want-lc.MaxLine)
+	}
+	lc.Exact = lc.Target == "line" && lc.MaxLine == lc.Want
+	var calls []int
+	for k := range at {
+		calls = append(calls, k)
+	}
+	sort.Ints(calls)
+	for _, k := range calls {
+		lc.Fields = append(lc.Fields, *at[k])
+	}
+	return st, lc
 }
